@@ -20,6 +20,7 @@ EXPLANATION = LEVEL_TEXT
 
 CHILD = Path(__file__).resolve().parent.parent / "cache_child.py"
 BASE = 1_000_000_000
+STEP = 0.5      # seconds per model clock tick (same constant in cache_child.py); sub-second on purpose: real edits can be < 1 s apart
 
 
 def content_bytes(cid):
@@ -112,7 +113,7 @@ class World:
 
     def write_fasta(self, mtime):
         self.fasta.write_bytes(content_bytes(self.cid))
-        os.utime(self.fasta, (BASE + mtime, BASE + mtime))
+        os.utime(self.fasta, (BASE + mtime * STEP, BASE + mtime * STEP))
 
     # environment
     def tick(self):
@@ -176,7 +177,8 @@ class World:
                 out[which] = None
                 continue
             data = p.read_bytes()
-            mt = int(p.stat().st_mtime) - BASE
+            mt = (p.stat().st_mtime - BASE) / STEP
+            mt = int(mt) if mt == int(mt) else mt
             src = None
             for cid in range(self.cid + 1):
                 full = rendering(cid, which, self.fasta)
@@ -337,7 +339,8 @@ def scenario_interleave(rng, sc, tag, prefix, nproc, schedule):
         w.close()
 
 
-PREFIXES = [[], ["load", "tick"], ["load", "tick", "rewrite", "tick"], ["load", "rewrite-same-tick"]]
+PREFIXES = [[], ["load", "tick"], ["load", "tick", "rewrite", "tick"], ["load", "rewrite-same-tick"],
+            ["load", "rewrite-same-tick", "load", "rewrite"]]
 
 
 def run(ctx):
@@ -351,7 +354,7 @@ def run(ctx):
             judge(w, out, "histories", d)
         # every crash point of an indexing run, from cold / warm-then-stale starts
         maxk = 16
-        for prefix in (PREFIXES if ctx.thorough else [PREFIXES[0], PREFIXES[2], PREFIXES[3]]):
+        for prefix in (PREFIXES if ctx.thorough else [PREFIXES[0], PREFIXES[2], PREFIXES[3], PREFIXES[4]]):
             for k in range(0, maxk):
                 w, d = scenario_crash(rng, sc, next(tag), prefix, k)
                 judge(w, out, "crash-points", d)
